@@ -93,27 +93,42 @@ Theorem C13_coordinate_planes_constructible :
   plane_ctor ROps (default_atol ROps) (vzero ROps) (V3 1 0 0) = Ok (plane_yz ROps).
 Proof. exact coordinate_planes_constructible. Qed.
 
-(* tilted, PARTIAL.  Proved: (a) every accepted result keeps the retained coplanar point as its reference point (so it
-   contains it), has a normal of unit length to six decimals, and that normal is the Rodrigues rotation of the old
-   normal about the tilt axis with the cosine / sine the trigonometric library returned; (b) the algebra of the tilt:
-   with e the unit in-plane direction towards the projected new point, axis e x n, and new in-plane vector
-   w = r e + h n, a rotation whose cosine and sine are r/k and h/k (k = |w|) maps n to a vector perpendicular to w,
-   i.e. the new plane contains the new point.  Missing: the link between (a) and (b), namely that vg's
-   signed_angle (arccos of the clipped cosine, sign from the triple product) has cosine r/|w| and sine h/|w|, and
-   that vg.perpendicular / vg.reject produce exactly e x n and the in-plane components.  The correspondence check
-   and the oracle cover that link on sampled tilts (math.cos / math.sin values are re-checked against the model's
-   own arccos / cos / sin on the tilted_full cases). *)
-Theorem C13_tilted_contains_both_partial :
-  (forall pl newp cop c s pl', tilted_cs ROps pl newp cop c s = Ok pl' ->
-     pref pl' = cop /\ plane_sd ROps pl' cop = 0 /\ Rabs (vnorm ROps (pnormal pl') - 1) <= default_atol ROps /\
-     pnormal pl' = vg_rotate_cs ROps (pnormal pl) (tilt_axis ROps pl newp cop) c s) /\
-  (forall (n e : vec3 R) (r h k c s : R),
-     vdot ROps n n = 1 -> vdot ROps e e = 1 -> vdot ROps e n = 0 -> k * c = r -> k * s = h ->
-     let a := vcross ROps e n in
-     let n' := vadd ROps (vadd ROps (vscale ROps c n) (vscale ROps s (vcross ROps a n)))
-                         (vscale ROps ((1 - c) * vdot ROps a n) a) in
-     vdot ROps n' (vadd ROps (vscale ROps r e) (vscale ROps h n)) = 0).
-Proof. exact (conj tilted_keeps_coplanar_point tilt_algebra). Qed.
+(* tilted: for a plane with a unit normal, a retained point on it and a new point that does not project onto the
+   retained point (it is off the rotation axis), the result is a plane with a unit normal through both points.
+   cos / sin / arccos are Reals' functions (cos_acos, sin_acos connect them to vg's arccos of the clipped cosine). *)
+Theorem C13_tilted_contains_both : forall pl newp cop,
+  unit_normal pl -> plane_sd ROps pl cop = 0 -> tilt_old ROps pl newp cop <> V3 0 0 0 ->
+  exists pl', tilted ROps pl newp cop = Ok pl' /\ pref pl' = cop /\ unit_normal pl' /\
+    plane_sd ROps pl' cop = 0 /\ plane_sd ROps pl' newp = 0.
+Proof. exact tilted_contains_both. Qed.
+(* whatever cosine / sine the trigonometric library returns, an accepted result keeps the retained point, has a
+   normal of unit length to six decimals, and that normal is the Rodrigues rotation of the old one about the tilt axis *)
+Theorem C13_tilted_accepted_result : forall pl newp cop c s pl', tilted_cs ROps pl newp cop c s = Ok pl' ->
+  pref pl' = cop /\ plane_sd ROps pl' cop = 0 /\ Rabs (vnorm ROps (pnormal pl') - 1) <= default_atol ROps /\
+  pnormal pl' = vg_rotate_cs ROps (pnormal pl) (tilt_axis ROps pl newp cop) c s.
+Proof. exact tilted_keeps_coplanar_point. Qed.
+
+(* fit_from_points is a total-least-squares plane.  PARTIAL in one respect only: LAPACK's symmetric eigen-solver is
+   not modelled; the statement is for every solver that meets its documented contract `eig_contract`
+   (cov v_i = w_i v_i, v_i orthonormal) on the covariance of the cloud.  Under it the fit succeeds for every cloud
+   of at least two points, passes through the centroid, has a unit normal, and no plane through the centroid has a
+   smaller sum of squared distances (`ssd ps c m` = sum over the points of ((p - c) . m)^2, m ranging over all unit
+   normals).  Ties between eigenvalues are allowed. *)
+Theorem C13_fit_is_least_squares_partial : forall eigh ps, (2 <= length ps)%nat ->
+  eig_contract (cov ROps ps) (eigh (cov ROps ps)) ->
+  exists pl, fit_from_points ROps eigh ps = Ok pl /\ pref pl = centroid ROps ps /\ unit_normal pl /\
+    forall m, vnorm2 ROps m = 1 ->
+      ssd ps (centroid ROps ps) (pnormal pl) <= ssd ps (centroid ROps ps) m.
+Proof. exact fit_is_least_squares. Qed.
+(* the sum of squared distances is the quadratic form of the scatter matrix, (N - 1) times that of np.cov *)
+Theorem C13_ssd_is_quadratic_form : forall ps c m,
+  ssd ps c m = quad (scatter ps c) m /\
+  (nlen ROps ps - 1 <> 0 -> quad (scatter ps (centroid ROps ps)) m = (nlen ROps ps - 1) * quad (cov ROps ps) m).
+Proof. intros ps c m. exact (conj (ssd_is_quad ps c m) (cov_is_scatter ps m)). Qed.
+(* non-vacuity of the contract: a diagonal covariance with the coordinate axes *)
+Example C13_eig_contract_inhabited :
+  eig_contract (M3 3 0 0 0 2 0 0 0 1) (Eig3 3 2 1 (V3 1 0 0) (V3 0 1 0) (V3 0 0 1)).
+Proof. unfold eig_contract, m3apply, vscale, vdot; cbn. repeat split; try (f_equal; ring); ring. Qed.
 
 (* non-vacuity: a non-collinear triple *)
 Example C13_noncollinear_inhabited : tri_cross ROps (V3 0 0 0) (V3 1 0 0) (V3 0 1 0) <> V3 0 0 0.
@@ -124,5 +139,5 @@ Definition C13_all := (C13_ctor_accepts_iff_unit_to_decimals, C13_default_tolera
   C13_from_points_and_vector_contains_parallel, C13_from_points_and_vector_parallel_refused, C13_fit_through_centroid,
   C13_equation_functions_agree, C13_equation_functions_nan_iff_collinear, C13_stacked_is_map_single,
   C13_normal_and_offset_stack, C13_coordinate_planes, C13_coordinate_planes_constructible,
-  C13_tilted_contains_both_partial).
+  C13_tilted_contains_both, C13_tilted_accepted_result, C13_fit_is_least_squares_partial, C13_ssd_is_quadratic_form).
 Print Assumptions C13_all.
